@@ -47,8 +47,8 @@ def report_issues(rep, spec, walks, results, source, drift_prefix=None):
                 raise RuntimeError("replay machinery failure: %s\n%s" % (iss["signature"], iss.get("detail")))
 
 
-def run_mc_stage(rep, spec, cfg_text, actions, label="mc", timeout=3000, ignore=()):
-    mc = tlc.run_mc(spec, cfg_text, workers=16, timeout=timeout)
+def run_mc_stage(rep, spec, cfg_text, actions, label="mc", timeout=3000, ignore=(), extra_files=None):
+    mc = tlc.run_mc(spec, cfg_text, workers=16, timeout=timeout, extra_files=extra_files)
     rep.coverage["states"] = rep.coverage.get("states", 0) + mc["distinct"]
     rep.coverage["transitions"] = rep.coverage.get("transitions", 0) + mc["generated"]
     rep.coverage.setdefault("mc", {})[label] = dict(spec=spec, distinct=mc["distinct"], generated=mc["generated"], depth=mc["depth"],
@@ -61,11 +61,17 @@ def run_mc_stage(rep, spec, cfg_text, actions, label="mc", timeout=3000, ignore=
     return True
 
 
-def run_replay_stage(rep, gen_spec, cfg_text, replay_fn, label, simulate=None, timeout=3000, sample_fn=None, procs=16, chunk=200):
-    raw, gst = tlc.run_paths(gen_spec, cfg_text, simulate=simulate, timeout=timeout)
+def run_replay_stage(rep, gen_spec, cfg_text, replay_fn, label, simulate=None, timeout=3000, sample_fn=None, procs=16, chunk=200,
+                     extra_files=None, max_histories=None, seed=0):
+    raw, gst = tlc.run_paths(gen_spec, cfg_text, simulate=simulate, timeout=timeout, extra_files=extra_files)
+    if max_histories and len(raw) > max_histories:
+        import random
+        random.Random(seed).shuffle(raw)
+        gst["sampled_from"] = len(raw)
+        raw = raw[:max_histories]
     results = replay_parallel(raw, replay_fn, procs=procs, chunk=chunk)
     report_issues(rep, gen_spec, raw, results, label)
-    rep.coverage.setdefault("replayed", {})[label] = dict(edges_in_model=gst["edges"], histories=len(raw),
+    rep.coverage.setdefault("replayed", {})[label] = dict(edges_in_model=gst["edges"], histories=len(raw), sampled_from=gst.get("sampled_from"),
                                                           steps=sum(len(w["steps"]) for w in raw), tlc_wall_s=round(gst["wall_s"], 1))
     rep.coverage["traces_validated_against_impl"] = rep.coverage.get("traces_validated_against_impl", 0) + len(raw)
     if raw:
